@@ -8,6 +8,7 @@ CONSTANTS
   ScanMemo = "none"
   OperandScope = "per call"
   SubqueryColumns = "per table object"
+  ResultScope = "per execute call"
   JobSet = "compiler"
 INIT Init
 NEXT Next
